@@ -2,6 +2,7 @@
 from __future__ import annotations
 
 import ast
+import re
 
 from ..irschema import Schema
 from ..pyfacts import Func, Repo, attr_chain, call_name, dotted_name, walk_no_nested_funcs
@@ -1058,4 +1059,215 @@ def physreq(repo, schema=None, sites=None):
         else:
             res.samples.append(f"{kind}: {[a.name for a in acts if reaches(a.fq)]} -> {target.name}")
     res.analysed = [cons.rel]
+    return res
+
+
+# ---- R-EARLYASSERT / R-CONSTNONE / R-ATTRAGREE -----------------------------------------------------------------------
+def _early_functions(repo, through="check_constraints"):
+    """Functions reachable from the passes up to and including `through`."""
+    _, passes, _ = P.find_passes(repo)
+    refs = repo.refs()
+    early = []
+    for p in passes:
+        early.append(p)
+        if p.name == through:
+            break
+    else:
+        raise AnalysisError(f"pipeline: pass {through} not found")
+    seen = set()
+    work = [p.fq for p in early]
+    while work:
+        k = work.pop()
+        if k in seen:
+            continue
+        seen.add(k)
+        work.extend(g.fq for g in refs.get(k, ()))
+    return seen
+
+
+def earlyassert(repo):
+    """R-EARLYASSERT (C16): that a static reference (`Type.field`, an enum value built from one) is *constant* is only
+    diagnosed by constraints.check_constraints ('Static references must refer to constants.').  Everything that runs up
+    to and including that pass sees user input for which it does not hold, so there (a) no `assert` may state
+    `is_constant(...)` / `is_constant_type(...)`, and (b) the `constant_reference` branch of ir_util.constant_value may
+    not assert anything about the reference's type (it answers None, 'no constant value')."""
+    res = RuleResult("R-EARLYASSERT")
+    seen = _early_functions(repo)
+    for m in repo.modules.values():
+        if not m.rel.startswith("compiler/"):
+            continue
+        for f in m.funcs.values():
+            if f.fq not in seen:
+                continue
+            res.instances += 1
+            for n in walk_no_nested_funcs(f.node):
+                if isinstance(n, ast.Assert):
+                    calls = [(call_name(c) or "").split(".")[-1] for c in ast.walk(n.test) if isinstance(c, ast.Call)]
+                    if any(c in ("is_constant", "is_constant_type") for c in calls):
+                        arg = ast.unparse(n.test)
+                        if "size_in_bits" in arg:
+                            continue      # `UInt:N`: the grammar only admits a numeric literal there
+                        res.add(f"{m.rel}|{f.qualname}|assert-constant", f"{f.qualname} asserts `{arg[:70]}`, but it runs before/with the "
+                                "pass that diagnoses non-constant static references: `enum E: A = S.b` with a non-constant b is "
+                                "an AssertionError instead of 'Static references must refer to constants.'", m.rel, n.lineno, f.qualname)
+    iu = repo.mod("compiler/util/ir_util.py")
+    cv = [f for f in iu.top_funcs() if f.name == "constant_value"]
+    if not cv:
+        raise AnalysisError("ir_util.constant_value not found")
+    branch = None
+    for n in ast.walk(cv[0].node):
+        if isinstance(n, ast.If) and "constant_reference" in ast.unparse(n.test):
+            branch = n
+            break
+    if branch is None:
+        raise AnalysisError("ir_util.constant_value: constant_reference branch not found")
+    res.instances += 1
+    for st in branch.body:
+        for n in ast.walk(st):
+            if isinstance(n, ast.Assert) and not (isinstance(n.test, ast.Constant) and n.test.value is False):
+                res.add(f"{iu.rel}|constant_value|constant_reference|assert", f"constant_value asserts `{ast.unparse(n.test)[:60]}` for a "
+                        "constant_reference; normalize_and_verify evaluates enum values, field locations and integer attributes "
+                        "before non-constant static references have been diagnosed", iu.rel, n.lineno, "constant_value")
+    res.analysed = ["compiler/front_end/*.py", iu.rel]
+    return res
+
+
+def constnone(repo):
+    """R-CONSTNONE (C16): in the passes up to check_constraints the value of an enum value expression may be unknown
+    (ir_util.constant_value(...) is None for a static reference to a non-constant field).  A local bound to
+    `constant_value(<v>.value)` for `<v>` iterating over an enum's values may be ordered (`<`, `<=`, ...), used in
+    arithmetic or appended to a list of numbers only where an `is None` / `is not None` test has excluded None."""
+    res = RuleResult("R-CONSTNONE")
+    seen = _early_functions(repo)
+    for m in repo.modules.values():
+        if not m.rel.startswith("compiler/front_end/"):
+            continue
+        for f in m.funcs.values():
+            if f.fq not in seen:
+                continue
+            loops = {}
+            for n in walk_no_nested_funcs(f.node):
+                if isinstance(n, ast.For) and isinstance(n.target, ast.Name) and isinstance(n.iter, ast.Attribute) and n.iter.attr == "value":
+                    loops[n.target.id] = n
+            if not loops:
+                continue
+
+            def none_test(t, var):
+                """returns 'pos' if t true => var not None; 'neg' if t false => var not None."""
+                if isinstance(t, ast.Compare) and len(t.ops) == 1 and isinstance(t.left, ast.Name) and t.left.id == var \
+                        and isinstance(t.comparators[0], ast.Constant) and t.comparators[0].value is None:
+                    return "pos" if isinstance(t.ops[0], ast.IsNot) else "neg" if isinstance(t.ops[0], ast.Is) else None
+                return None
+
+            def uses(e, var, guarded, out):
+                if isinstance(e, ast.BoolOp) and isinstance(e.op, ast.And):
+                    g = guarded
+                    for v in e.values:
+                        uses(v, var, g, out)
+                        g = g or none_test(v, var) == "pos"
+                    return
+                if isinstance(e, ast.Compare) and any(isinstance(o, (ast.Lt, ast.LtE, ast.Gt, ast.GtE)) for o in e.ops) \
+                        and any(isinstance(x, ast.Name) and x.id == var for x in [e.left] + e.comparators) and not guarded:
+                    out.append(e.lineno)
+                if isinstance(e, ast.BinOp) and any(isinstance(x, ast.Name) and x.id == var for x in (e.left, e.right)) and not guarded:
+                    out.append(e.lineno)
+                if isinstance(e, ast.Call) and isinstance(e.func, ast.Attribute) and e.func.attr == "append" and not guarded \
+                        and any(isinstance(x, ast.Name) and x.id == var for a in e.args for x in ast.walk(a)):
+                    out.append(e.lineno)
+                for c in ast.iter_child_nodes(e):
+                    if not isinstance(c, (ast.FunctionDef, ast.Lambda)):
+                        uses(c, var, guarded, out)
+
+            def scan(stmts, var, guarded, out):
+                for st in stmts:
+                    if isinstance(st, ast.If):
+                        uses(st.test, var, guarded, out)
+                        k = none_test(st.test, var)
+                        if isinstance(st.test, ast.BoolOp) and isinstance(st.test.op, ast.And) and any(none_test(v, var) == "pos" for v in st.test.values):
+                            k = "pos"
+                        scan(st.body, var, guarded or k == "pos", out)
+                        scan(st.orelse, var, guarded or k == "neg", out)
+                        if k == "neg" and st.body and isinstance(st.body[-1], (ast.Continue, ast.Return, ast.Break, ast.Raise)):
+                            guarded = True
+                        continue
+                    if isinstance(st, (ast.For, ast.While, ast.With, ast.Try)):
+                        for blk in ("body", "orelse", "finalbody"):
+                            scan(getattr(st, blk, []) or [], var, guarded, out)
+                        continue
+                    uses(st, var, guarded, out)
+
+            for lv, loop in loops.items():
+                for i, st in enumerate(loop.body):
+                    if isinstance(st, ast.Assign) and len(st.targets) == 1 and isinstance(st.targets[0], ast.Name) \
+                            and isinstance(st.value, ast.Call) and (call_name(st.value) or "").split(".")[-1] == "constant_value" \
+                            and st.value.args and ast.unparse(st.value.args[0]) == f"{lv}.value":
+                        var = st.targets[0].id
+                        res.instances += 1
+                        out = []
+                        scan(loop.body[i + 1:], var, False, out)
+                        for ln in sorted(set(out)):
+                            res.add(f"{m.rel}|{f.qualname}|{var}", f"{f.qualname} orders/accumulates `{var}` = constant_value({lv}.value) at "
+                                    f"line {ln} without excluding None: an enum value that is a static reference to a non-constant "
+                                    "field has no value yet -> TypeError instead of the diagnostic", m.rel, ln, f.qualname)
+    if res.instances < 2 and not res.findings:
+        raise AnalysisError(f"only {res.instances} enum-value evaluations found in the early passes")
+    res.analysed = ["compiler/front_end/attribute_checker.py", "compiler/front_end/constraints.py"]
+    return res
+
+
+ATTR_PAIRS = (("_is_constant_boolean", "get_boolean_attribute"), ("_is_constant_integer", "get_integer_attribute"))
+
+
+def attragree(repo):
+    """R-ATTRAGREE (C14/C16): an attribute's value is validated by attribute_util._is_constant_<kind> and later read by
+    ir_util.get_<kind>_attribute, which answers `default_value` ('absent') for every value it does not understand.  So
+    each condition under which the getter gives up must also make the validator reject; otherwise an accepted value
+    is treated as missing (a second attribute is synthesised -> 'Duplicate attribute' assertion, or the attribute is
+    silently ignored).  Disjuncts are compared after renaming the attribute value to V."""
+    res = RuleResult("R-ATTRAGREE")
+    au = repo.mod("compiler/util/attribute_util.py")
+    iu = repo.mod("compiler/util/ir_util.py")
+
+    def disjuncts(test):
+        if isinstance(test, ast.BoolOp) and isinstance(test.op, ast.Or):
+            out = []
+            for v in test.values:
+                out += disjuncts(v)
+            return out
+        return [test]
+
+    def norm(e, var):
+        t = ast.unparse(e).replace("ir_util.", "")
+        return re.sub(r"\b" + re.escape(var) + r"\b", "V", t)
+
+    for vname, gname in ATTR_PAIRS:
+        vf = [f for f in au.top_funcs() if f.name == vname]
+        gf = [f for f in iu.top_funcs() if f.name == gname]
+        if not vf or not gf:
+            raise AnalysisError(f"{vname} / {gname} not found")
+        # getter: `if <...>: return default_value`
+        gvar = None
+        for n in walk_no_nested_funcs(gf[0].node):
+            if isinstance(n, ast.Assign) and isinstance(n.value, ast.Call) and (call_name(n.value) or "").endswith("get_attribute"):
+                gvar = n.targets[0].id
+        give_up = []
+        for n in walk_no_nested_funcs(gf[0].node):
+            if isinstance(n, ast.If) and n.body and isinstance(n.body[0], ast.Return) and ast.unparse(n.body[0].value) == "default_value":
+                give_up += [norm(d, gvar) for d in disjuncts(n.test)]
+        give_up = [g for g in give_up if g != "not V"]
+        # validator: `if <...>: return [[error...]]`
+        reject = []
+        for n in walk_no_nested_funcs(vf[0].node):
+            if isinstance(n, ast.If) and n.body and isinstance(n.body[0], ast.Return) and isinstance(n.body[0].value, ast.List) and n.body[0].value.elts:
+                reject += [norm(d, "attr.value") for d in disjuncts(n.test)]
+        if not give_up or not reject:
+            raise AnalysisError(f"{vname}/{gname}: conditions not recognised ({give_up} / {reject})")
+        for g in give_up:
+            res.instances += 1
+            if g not in reject:
+                res.add(f"{iu.rel}|{gname}|{vname}|{g}", f"{gname} treats an attribute as absent when `{g}`, but {vname} accepts such a value "
+                        f"(it rejects only: {'; '.join(reject)}): an accepted attribute value is later read as 'no attribute'",
+                        au.rel, vf[0].node.lineno, vname)
+        res.samples.append(f"{gname} gives up on {give_up}; {vname} rejects {reject}")
+    res.analysed = [au.rel, iu.rel]
     return res
